@@ -22,7 +22,7 @@ LEVEL = "exploration"
 TECHNIQUE = "bounded-exhaustive enumeration of model shapes x function-sharing patterns; generated MxlPy source is executed and the rebuilt model compared with the original"
 LEVEL_TEXT = (
     "Every model in the product of structural shapes (number of variables, 6 coefficient kinds, 5 derived shapes, "
-    "initial-assignment parameter, conditional/time-dependent rates) x 17 function-assignment patterns (incl. many-digit, very small and large literal values) is passed to "
+    "initial-assignment parameter, conditional/time-dependent rates) x 20 function-assignment patterns (incl. many-digit, very small and large literal values) is passed to "
     "generate_mxlpy_code; the source is exec'd, create_model() called, and names/kinds, initial values, parameter "
     "values and (at 4 states x 2 times) derived values, fluxes and derivatives are compared with the original "
     "(rtol 1e-12; printed literals carry 15 digits). Untranslatable functions must make generation raise."
@@ -52,7 +52,8 @@ PATTERNS = [
     "own", "permuted-args", "repeated-arg-first", "repeated-arg-last", "same-name-first", "same-name-last",
     "same-name-derived", "own-parameter-names-swapped", "shared-ia-and-derived", "ia-variable", "unit-variable",
     "unit-parameter", "locals-and-conditionals", "untranslatable", "same-name-coinciding-specialisation",
-    "repeated-arg-same-specialisation", "hard-literals",
+    "repeated-arg-same-specialisation", "hard-literals", "repeated-arg-name-clash", "ignored-param-repeated-last",
+    "ignored-param-repeated-first",
 ]
 STATES = c07.STATES
 TIMES = c07.TIMES
@@ -122,6 +123,18 @@ def build_model(case):
         m.add_derived("s1", F.second, args=["k1", "x1"])
         m.add_derived("s2", F.second, args=["x1", "x1"])
         m.add_reaction("rs", F.add2, args=["s1", "s2"], stoichiometry={"x1": -1})
+    elif p == "repeated-arg-name-clash":
+        # a model name that looks like the fresh name a generator would pick for the repeated argument
+        m.add_parameters({"x1_1": 3.0, "x1_2": 5.0})
+        m.add_derived("s1", F.weighted3, args=["x1", "x1", "x1_1"])
+        m.add_derived("s2", F.weighted3, args=["x1_1", "x1", "x1"])
+        m.add_derived("s3", F.weighted3, args=["x1", "x1_2", "x1"])
+        m.add_reaction("rs", F.weighted3, args=["s1", "s2", "s3"], stoichiometry={"x1": -1})
+    elif p in ("ignored-param-repeated-last", "ignored-param-repeated-first"):
+        # one function whose value ignores its middle parameter: one component fills that slot with a repeated name
+        uses = [("rs", ["x1", "kc", "k1"]), ("rs2", ["kc", "kc", "k2"])]
+        for name, args in uses if p.endswith("last") else uses[::-1]:
+            m.add_reaction(name, F.ign_mid, args=args, stoichiometry={"x1": -1})
     elif p == "untranslatable":
         m.add_reaction("rs", F.aug_fn, args=["x1", "k1"], stoichiometry={"x1": -1})
     return m
